@@ -409,6 +409,52 @@ def work_recursive(chunk):
     return {"evals": len(chunk) * len(REC_SPELLINGS), "hist": hist, "viol": viol}
 
 
+def work_cli(chunk):
+    """chunk: list of (class, constraint, value): the exit status of the real `ucg build` — alone, and for a conforming
+    and a non-conforming file named in one invocation (either order)."""
+    import shutil as _sh
+    hist = {}
+    viol = []
+    evals = 0
+    d = tempfile.mkdtemp(prefix="ucgverif-c06cli-")
+    try:
+        for cls, c, v in chunk:
+            want = admitted(c, v)
+            src = program(c, v, "inline")
+            if want is None or src is None:
+                continue
+            with open(os.path.join(d, "x.ucg"), "w") as f:
+                f.write(src)
+            with open(os.path.join(d, "good.ucg"), "w") as f:
+                f.write("let fine :: 0 = 1;\n")
+            runs = [("alone", ["build", "x.ucg"], 0 if want else 1), ("after-a-good-file", ["build", "good.ucg", "x.ucg"], 0 if want else 1),
+                    ("before-a-good-file", ["build", "x.ucg", "good.ucg"], 0 if want else 1)]
+            for rname, args, want_rc in runs:
+                rc, out, err = core.run_ucg(args, cwd=d, env={"HOME": d})
+                evals += 1
+                ok = rc == want_rc
+                k = "cli-%s:%s" % (rname, ("admits=admits" if want else "rejects=rejects") if ok else "EXIT-STATUS-DIFFERS")
+                hist[k] = hist.get(k, 0) + 1
+                if not ok:
+                    viol.append((cls, c, v, "cli-" + rname, "rejects-conforming" if want else "admits-nonconforming", src, {"rc": rc, "stderr": err.decode("utf-8", "replace")[-300:]}))
+    finally:
+        _sh.rmtree(d, ignore_errors=True)
+    return {"evals": evals, "hist": hist, "viol": viol, "sample": None}
+
+
+def cli_items(cons, vals):
+    """per constraint the first value it admits and the first it does not"""
+    for cls, c in cons:
+        got = {}
+        for v in vals:
+            a = admitted(c, v)
+            if a is not None and a not in got and program(c, v, "inline") is not None:
+                got[a] = v
+                yield (cls, c, v)
+            if len(got) == 2:
+                break
+
+
 def run(ctx):
     cons = list(constraints())
     vals = values()
@@ -420,7 +466,7 @@ def run(ctx):
                 "the checker has no static shape) x {inline, named constraint, let-bound exemplar, named alias of a named constraint, an "
                 "alternation split over two named constraints (either side), the value first passing another binding whose constraint it "
                 "satisfies (two such constraints per type)}, each built as a file (checker + VM). All programs distinct; non-trivial = "
-                "the build gave a verdict. Also the recursive constraint of the reference under five spellings x 14 values (documented verdicts; spellings must agree)." % (len(cons), len(tuple_exemplars()), len(LIST_EXEMPLARS), len(vals)))
+                "the build gave a verdict. Per constraint the first value it admits and the first it does not once more through the exit status of the real `ucg build` (alone, after and before a good file in one invocation). Also the recursive constraint of the reference under five spellings x 14 values (documented verdicts; spellings must agree)." % (len(cons), len(tuple_exemplars()), len(LIST_EXEMPLARS), len(vals)))
     viol = []
     items = [(cls, c, v) for cls, c in cons for v in vals]
     for part in core.pmap(work, items, chunk=250):
@@ -429,6 +475,11 @@ def run(ctx):
             ctx.outcome(k, v)
         if part["sample"]:
             ctx.sample(part["sample"])
+        viol.extend(part["viol"])
+    for part in core.pmap(work_cli, list(cli_items(cons, vals)), chunk=12):
+        ctx.count(part["evals"], part["evals"])
+        for k, v in part["hist"].items():
+            ctx.outcome(k, v)
         viol.extend(part["viol"])
     for part in core.pmap(work_recursive, REC_VALUES, chunk=2):
         ctx.count(part["evals"], part["evals"])
@@ -451,7 +502,7 @@ def run(ctx):
         if len(seen) > 150:
             break
         ctx.violation(sig, "%s (%s spelling): `%s`" % (kind, sp, src.replace(PRELUDE, "").strip().replace("\n", " ")),
-                      {"kind": "constraint", "src": src, "expected_admitted": kind == "rejects-conforming", "failure": kind, "detail": det})
+                      {"kind": "constraint", "src": src, "expected_admitted": kind == "rejects-conforming", "failure": kind, "detail": det, "route": sp if sp.startswith("cli-") else "build(path)"})
 
 
 def replay(case):
@@ -462,6 +513,18 @@ def replay(case):
         core.worker_server().close()
         core._WORKER_SERVER = None
         return not part["viol"], {"violations": part["viol"]}
+    if case.get("route", "").startswith("cli-"):
+        d = tempfile.mkdtemp(prefix="ucgverif-c06-")
+        try:
+            with open(os.path.join(d, "x.ucg"), "w") as f:
+                f.write(case["src"])
+            with open(os.path.join(d, "good.ucg"), "w") as f:
+                f.write("let fine :: 0 = 1;\n")
+            args = {"cli-alone": ["build", "x.ucg"], "cli-after-a-good-file": ["build", "good.ucg", "x.ucg"], "cli-before-a-good-file": ["build", "x.ucg", "good.ucg"]}[case["route"]]
+            rc, out, err = core.run_ucg(args, cwd=d, env={"HOME": d})
+        finally:
+            shutil.rmtree(d, ignore_errors=True)
+        return (rc == 0) == case["expected_admitted"], {"rc": rc, "stderr": err.decode("utf-8", "replace")[-300:]}
     srv = core.Server()
     d = tempfile.mkdtemp(prefix="ucgverif-c06-")
     try:
